@@ -3,7 +3,7 @@
     Spec: Spec04.v ([Dec] = decoding of the whole byte string, [eol_norm] = XML line-end normalisation; neither
     mentions reads or buffers).  Model: Model04.v (XMLReader.cpp).  Contract on the transcoder: Contract04.v. *)
 From XV Require Import C04.Spec04 C04.Model04 C04.Contract04 C04.Proofs04a C04.Proofs04b C04.Proofs04c C04.Proofs04d C04.Proofs04e
-                       C04.Proofs04f C04.Inst04.
+                       C04.Proofs04f C04.Proofs04g C04.Inst04.
 From Coq Require Import Lia.
 Local Open Scope N_scope.
 
@@ -115,13 +115,23 @@ Theorem T04_spec_function : forall step X maxSeq s, xcontract step X maxSeq ->
 Proof. intros step X maxSeq s HC. exact (dec_fn_Dec step X maxSeq HC (length s) s (le_n _)). Qed.
 Print Assumptions T04_spec_function.
 
-(** the contract is met by the transcoder models of C05 for ISO-8859-1 and UTF-16 (both byte orders), so the
+(** the contract is met by the transcoder models of C05 for ISO-8859-1, UTF-16 (both byte orders) and UTF-8, so the
     theorems above apply to them with the real buffer sizes regenerated from XMLReader.hpp *)
 Theorem T04_contract_latin1 : xcontract step_latin1 xc_latin1 1.
 Proof. exact latin1_contract. Qed.
 Theorem T04_contract_utf16 : forall sw, xcontract (step_utf16 sw) (xc_utf16 sw) 2.
 Proof. exact utf16_contract. Qed.
+(** ... and by the UTF-8 transcoder model: C05's step function [x8_step] (the one T05_utf8_dec_sound/complete are about)
+    iterated by Model04.x8_fast; at most 5 trailing bytes are ever awaited *)
+Theorem T04_contract_utf8 : xcontract step_utf8 xc_utf8 6.
+Proof. exact utf8_contract. Qed.
+Print Assumptions T04_contract_utf8.
+
 Theorem T04_real_sizes_ok : forall enc v11 lw fill safe, sizes_ok (real_cfg enc v11 lw fill safe) 4.
+Proof.
+  intros. unfold sizes_ok, real_cfg, mk_cfg. cbn [cbsz rbsz]. unfold kCharBufSize, kRawBufSize. lia.
+Qed.
+Theorem T04_real_sizes_ok_6 : forall enc v11 lw fill safe, sizes_ok (real_cfg enc v11 lw fill safe) 6.
 Proof.
   intros. unfold sizes_ok, real_cfg, mk_cfg. cbn [cbsz rbsz]. unfold kCharBufSize, kRawBufSize. lia.
 Qed.
@@ -139,6 +149,17 @@ Proof.
   destruct sw; exact (utf16_contract _).
 Qed.
 Print Assumptions T04_chars_utf16_real.
+
+Theorem T04_chars_utf8_real : forall v11 lw fill safe chunks cs st fuel,
+  Forall (fun ch => ch <> []) chunks -> Dec step_utf8 (concat chunks) cs st -> (st = Clean \/ st = Truncated) ->
+  (length cs < fuel)%nat ->
+  deliver (real_cfg 0 v11 lw fill safe) fuel (mk_reader chunks) = (eol_norm v11 cs, EndEOF).
+Proof.
+  intros v11 lw fill safe chunks cs st fuel Hne D Hnb Hf.
+  exact (T04_chars step_utf8 6 (real_cfg 0 v11 lw fill safe) chunks cs st fuel utf8_contract
+           (T04_real_sizes_ok_6 0 v11 lw fill safe) Hne D Hnb Hf).
+Qed.
+Print Assumptions T04_chars_utf8_real.
 
 (* ------------------------------------------------------------------------------------------- *)
 (** * findings, stated on the as-written model by evaluation of concrete witnesses *)
